@@ -316,11 +316,24 @@ def execute(plan, ctx):
         except Exception:
             return i in alias
 
+    last_rejected = [None]       # the dictionary object handed to the most recent update, if that update was rejected
+                                 # and the caller has not touched it since
+
+    def shows_rejected(i):
+        # the palette of object i came from a dictionary object that the caller later edited and handed to an
+        # update again, and that update was REJECTED: if the object now renders differently, what it shows is the
+        # content of a rejected dictionary, which the last sentence of the statement excludes whichever way the
+        # palette is stored
+        return i in alias and last_rejected[0] is not None and alias[i] is last_rejected[0]
+
     def render_check(i, why):
         try:
             html = objs[i].get_HTMLColorString()
-        except Exception:
+        except Exception as e:
             if alias_edited(i):
+                if shows_rejected(i):
+                    raise Violation("rejected_palette_visible", "render:rejected_same_dict", "object %d: rendering raises %r after an update with "
+                                    "the (edited) dictionary its palette came from was rejected: the rejected content took effect" % (i, e))
                 from ..kernel import Discard
                 raise Discard("rendering fails after the caller edited the dictionary the palette came from (aliasing is not covered by the statement)")
             raise
@@ -333,6 +346,9 @@ def execute(plan, ctx):
                 followed = any(alias[i].get(a, None) != pals[i][a] for a in AA) or len(alias[i]) < 20
             except Exception:
                 followed = True
+            if followed and shows_rejected(i):
+                raise Violation("rejected_palette_visible", "render:rejected_same_dict", "object %d (N=%d) after %s: %s -- the dictionary its palette came from was "
+                                "edited by the caller, handed to an update again and REJECTED, yet the object now renders the rejected content" % (i, len(seqs[i]), why, msg))
             if followed:
                 from ..kernel import Discard
                 raise Discard("the object's palette follows later edits of the dictionary it was given (aliasing is not covered by the statement)")
@@ -441,7 +457,9 @@ def execute(plan, ctx):
             raised = e
         if valid and raised is None:
             alias[i] = passed            # the dictionary object the palette came from (the caller may edit it later)
+        last_rejected[0] = passed if (not valid and raised is not None) else None
         if op.get("then_mutate"):
+            last_rejected[0] = None
             # the caller goes on editing its own dictionary afterwards.  Whether the object took a copy is not
             # said by the statement: if its rendering now follows the edited dictionary the run is not judged
             passed[op["then_mutate"][0]] = op["then_mutate"][1]
